@@ -192,6 +192,15 @@ def rule_nonempty(ctx, M):
                             edges.append((b, lab))
                         if name == "all" and kind == "nonempty" and tr is True:
                             edges.append((b, lab))
+            # the same test cached in a bool field by the constructor (the entry lists never change afterwards)
+            for b, lab, truth, term in I.bool_edges(fn, pr):
+                tt, tr = term, truth
+                while tt[0] == "un" and tt[1] == "Not":
+                    tt, tr = tt[2], not tr
+                st_ = P.strip(tt)
+                if st_[0] == "field" and P.strip(st_[1]) == ("param", 1) and fn.local_ty(1).lstrip("&mut ").strip() == M.iter_ty \
+                        and not tr and cached_empty_flag(M, st_[2]):
+                    edges.append((b, lab))
             if edges and I.guarded_by(fn, bi, edges):
                 ctx.ok(rule, {"fn": fn.path, "site": f"index into {M.entry_vec_ty}", "guard_edges": len(edges)},
                        sample=True)
@@ -203,6 +212,55 @@ def rule_nonempty(ctx, M):
                               construct="Index::index on a player's entry list")
     if sites == 0:
         raise Unrecognised(rule, "no index into a player's entry list found under next()", M.next.path, M.next.line)
+
+
+_flag_cache = {}
+
+
+def cached_empty_flag(M, k):
+    """field k of the iterator is `entries.iter().any(|e| e.is_empty())` computed once by the constructor over the very vector
+    stored as the entry lists, and neither that field nor the entry lists are written anywhere under the entry points"""
+    key = (id(M), k)
+    if key in _flag_cache:
+        return _flag_cache[key]
+    F = M.F
+    ok = False
+    ctor = M.ctor
+    pr = P.Prov(ctor)
+    ret = pr.local(0)
+    if ret[0] == "agg" and ret[1].startswith("adt:" + M.iter_ty) and k < len(ret[2]):
+        t = P.strip(ret[2][k], calls=False)
+        ent = P.strip(ret[2][M.f_entries])
+        if t[0] == "call" and t[1].rsplit("::", 1)[-1] == "any" and len(t[2]) == 2:
+            base, chain = L.iterator_chain(t[2][0])
+            names_ = [c_.rsplit("::", 1)[-1] for c_ in chain]
+            clo = t[2][1]
+            kind = None
+            if clo[0] == "fn" and clo[1].rsplit("::", 1)[-1] == "is_empty":
+                kind = "empty"
+            if clo[0] == "agg" and clo[1].startswith("closure:"):
+                kind = closure_returns_is_empty(F, clo[1][len("closure:"):])
+            ok = kind == "empty" and P.strip(base) == ent and \
+                all(n_ in ("iter", "into_iter", "rev", "deref", "as_slice") for n_ in names_)
+    if ok:
+        # nobody writes the flag or touches the entry lists mutably after construction
+        for p in sorted(M.reach):
+            g = F.fns[p]
+            if g.path == ctor.path:
+                continue
+            for b_ in g.blocks:
+                for s_ in b_["stmts"]:
+                    if s_["k"] != "assign":
+                        continue
+                    pj = s_["place"]["proj"]
+                    if any(isinstance(e_, dict) and e_.get("of") == M.iter_ty and e_.get("f") in (k, M.f_entries) for e_ in pj):
+                        ok = False
+                    rv = s_["rv"]
+                    if "ref" in rv and rv.get("mut") and any(isinstance(e_, dict) and e_.get("of") == M.iter_ty and e_.get("f") == M.f_entries
+                                                            for e_ in rv["ref"]["proj"]):
+                        ok = False
+    _flag_cache[key] = ok
+    return ok
 
 
 def rule_ranges_all(ctx, M):
